@@ -480,101 +480,33 @@ func (s *Stream) skipValue(depth int64) error {
 	}
 }
 
-func nullBytes(s *Stream) error {
-	// current cursor's character is 'n'
-	s.cursor++
-	if s.char() != 'u' {
-		if err := retryReadNull(s); err != nil {
-			return err
+// literalBytes consumes the rest of the literal lit; the current cursor's character is lit[0].
+// A refill in the middle of the literal is followed by the comparison of the byte it delivered, and
+// the end of the input inside the literal is an error.
+func literalBytes(s *Stream, lit string, what string) error {
+	for i := 1; i < len(lit); i++ {
+		s.cursor++
+		for s.char() == nul {
+			if !s.read() {
+				return errors.ErrInvalidCharacter(s.char(), what, s.totalOffset())
+			}
 		}
-	}
-	s.cursor++
-	if s.char() != 'l' {
-		if err := retryReadNull(s); err != nil {
-			return err
-		}
-	}
-	s.cursor++
-	if s.char() != 'l' {
-		if err := retryReadNull(s); err != nil {
-			return err
+		if s.char() != lit[i] {
+			return errors.ErrInvalidCharacter(s.char(), what, s.totalOffset())
 		}
 	}
 	s.cursor++
 	return nil
 }
 
-func retryReadNull(s *Stream) error {
-	if s.char() == nul && s.read() {
-		return nil
-	}
-	return errors.ErrInvalidCharacter(s.char(), "null", s.totalOffset())
+func nullBytes(s *Stream) error {
+	return literalBytes(s, "null", "null")
 }
 
 func trueBytes(s *Stream) error {
-	// current cursor's character is 't'
-	s.cursor++
-	if s.char() != 'r' {
-		if err := retryReadTrue(s); err != nil {
-			return err
-		}
-	}
-	s.cursor++
-	if s.char() != 'u' {
-		if err := retryReadTrue(s); err != nil {
-			return err
-		}
-	}
-	s.cursor++
-	if s.char() != 'e' {
-		if err := retryReadTrue(s); err != nil {
-			return err
-		}
-	}
-	s.cursor++
-	return nil
-}
-
-func retryReadTrue(s *Stream) error {
-	if s.char() == nul && s.read() {
-		return nil
-	}
-	return errors.ErrInvalidCharacter(s.char(), "bool(true)", s.totalOffset())
+	return literalBytes(s, "true", "bool(true)")
 }
 
 func falseBytes(s *Stream) error {
-	// current cursor's character is 'f'
-	s.cursor++
-	if s.char() != 'a' {
-		if err := retryReadFalse(s); err != nil {
-			return err
-		}
-	}
-	s.cursor++
-	if s.char() != 'l' {
-		if err := retryReadFalse(s); err != nil {
-			return err
-		}
-	}
-	s.cursor++
-	if s.char() != 's' {
-		if err := retryReadFalse(s); err != nil {
-			return err
-		}
-	}
-	s.cursor++
-	if s.char() != 'e' {
-		if err := retryReadFalse(s); err != nil {
-			return err
-		}
-	}
-	s.cursor++
-	return nil
-}
-
-func retryReadFalse(s *Stream) error {
-	if s.char() == nul && s.read() {
-		return nil
-	}
-	return errors.ErrInvalidCharacter(s.char(), "bool(false)", s.totalOffset())
+	return literalBytes(s, "false", "bool(false)")
 }
